@@ -101,4 +101,14 @@ C11_run(H) ==
                \* UDP runs that are on the wire at the same time towards the same endpoint differ in their source port
                /\ (a[1].p.kind = "udp" /\ b[1].p.kind = "udp" /\ a[1].p.dst = b[1].p.dst /\ a[1].p.dport = b[1].p.dport
                    /\ a[1].t <= b[Len(b)].t /\ b[1].t <= a[Len(a)].t) => a[1].p.sport # b[1].p.sport
+\* C15: the end-to-end samples are exactly the destination RTTs of the end-to-end wire runs, as a multiset: none lost, none duplicated,
+\* whatever the completion order (0 = unanswered)
+C15_samples(H) ==
+    (H.out.ok /\ Len(H.flt) = 0 /\ H.cancel < 0) =>
+      LET E == {w \in WireRuns(H) : IsE2E(H, w)}
+          P == [w \in E |-> Predict(HRun(H, w), SentOfRun(H, w), DelOfRun(H, w))]
+          DestRTT(w) == LET D == {k \in DOMAIN P[w].hops : P[w].hops[k].dest}
+                        IN IF P[w].err # "" \/ D = {} THEN 0 ELSE P[w].hops[CHOOSE k \in D : TRUE].rtt_us
+          vals == {DestRTT(w) : w \in E} \cup {H.out.rtts_us[i] : i \in DOMAIN H.out.rtts_us}
+      IN \A v \in vals : Cardinality({w \in E : DestRTT(w) = v}) = Cardinality({i \in DOMAIN H.out.rtts_us : H.out.rtts_us[i] = v})
 =============================================================================
